@@ -215,6 +215,8 @@ type VC struct {
 	nact     int
 	rootFrame *frame
 	compMath map[string]func(*VC)
+	callsSeen map[string]bool // callees (short and full names) called by the function under contract itself
+	undecided string     // set when the function cannot be decided against its contract (see enterLoop)
 	depAdds  []nameEvent // C04: calls of addDep (string recorded, path condition)
 	nameUses []nameEvent // C04: places where a string goes into the output (name conversions, arguments, coq fields)
 }
@@ -810,6 +812,9 @@ func (vc *VC) query(o *Obligation) string {
 
 // under: underlying type; for a type parameter with a core type, that core type's underlying.
 func under(t types.Type) types.Type {
+	if t == nil {
+		return nil
+	}
 	t = types.Unalias(t)
 	if tp, ok := t.(*types.TypeParam); ok {
 		if it, ok := tp.Constraint().Underlying().(*types.Interface); ok {
